@@ -163,7 +163,8 @@ class Interp:
                     sl = slice(*(None if x is None else const_value(x) for x in (e.slice.lower, e.slice.upper, e.slice.step)))
                     out.append((T(base[1], *base[2:][sl]), s))
                 else:
-                    out.append((T('slice', base, unparse(e.slice)), s))
+                    for sl, s2 in self.ev_Slice(e.slice, s):
+                        out.append((T('index', base, sl), s2))
             else:
                 for i, s2 in self.ev(e.slice, s):
                     if seq and is_c(i) and isinstance(i[1], int) and not isinstance(i[1], bool) and -len(base[2:]) <= i[1] < len(base[2:]):
